@@ -1619,6 +1619,8 @@ class Project:
 
         old_path = path
         if not search and not os.path.isfile(_get_project_config_fn(path)):
+            # A project with an older schema is refused as such, not reported as missing.
+            _raise_if_older_schema(path)
             path = None
         else:
             path = _locate_config_dir(path)
